@@ -309,18 +309,17 @@ Definition run_twin (c impl : sexp) : sexp :=
   let frag := c18_fragment tc in
   let clean := clean_path (rq_path req) in
   let unamb := unambiguous O tc req in
-  (* the premises of Props.C18_agree (the proved positive half), evaluated on this case *)
+  (* the premises of Props.C18_agree_literal_roots (the proved positive half), evaluated on this case *)
   let agree_hyps :=
-    match detect_web_service O (tokenize (rq_path req)) (t_services t0), detect_dispatcher O (rq_path req) (t_services t0) with
-    | Some w, Some (w', _) =>
-        str_eqb (s_root w) (s_root w') && sexp_eqb (Lst (map (fun r => I (r_id r)) (s_routes w))) (Lst (map (fun r => I (r_id r)) (s_routes w')))
-        && forallb (wf_route w) (s_routes w)
-        && tokens_agree (s_root w) && forallb (fun r => tokens_agree (r_rel r)) (s_routes w)
-        && forallb (jsr_names_agree w) (s_routes w)
-        && c18_service_ok w && c18_clean (rq_path req) && c18_chain O w req
-    | None, None => true
-    | _, _ => false
-    end in
+    roots_literal (t_services t0) && roots_distinct (t_services t0) && c18_clean (rq_path req)
+    && match detect_web_service O (tokenize (rq_path req)) (t_services t0) with
+       | Some w =>
+           forallb (wf_route w) (s_routes w)
+           && tokens_agree (s_root w) && forallb (fun r => tokens_agree (r_rel r)) (s_routes w)
+           && forallb (jsr_names_agree w) (s_routes w)
+           && c18_service_ok w && c18_chain O w req
+       | None => true
+       end in
   Lst [ Lst [routed_obs tc xc; routed_obs tj xj];
         Lst [ verdict "c18_routers_agree" (implb frag (sexp_eqb (sx_nth 0 impl) (sx_nth 1 impl))) ];
         A (L (class_of xc));
@@ -367,11 +366,19 @@ Definition run_perm (c impl : sexp) : sexp :=
                 end
       | _ => true
       end) (combine iobs tables) in
+  (* the premises of Props.C03_order_curly / C03_order_jsr, evaluated on this case *)
+  let hyp_order := keys_distinct t &&
+                   match t_router t with
+                   | Curly => top_unique O (tokenize (rq_path req)) (t_services t)
+                   | Jsr311 => jsr_keys_unique O (rq_path req) (t_services t)
+                   end in
   Lst [ Lst (map (fun xt => routed_obs (snd xt) (fst xt)) (combine xs tables));
         Lst [ verdict "c03_order_independent" (implb scope same);
+              verdict "c03_order_theorem_on_implementation" (implb hyp_order same);
               verdict "c03_best_match" best_ok ];
         A (L (match xs with x :: _ => class_of x | [] => "empty"%string end));
         Lst [ verdict "kf:K-C03-1" tie; verdict "in_scope" scope;
+              verdict "hypotheses_of_C03_order" hyp_order;
               verdict "permutations_built" (Nat.ltb 1 (List.length iobs)) ] ].
 
 (* ---- domain "disp" (C06 C07 C10 C19) ----
